@@ -334,6 +334,23 @@ theorem stmt_tokbuf_depth (F : Nat) (s s' : PState) (hg : Good s) (hn : s.n ≤ 
     key (parseFill_tot hF2), key (parseLocation_tot hF2), key parseOrderBy_tot, key (parseFields_tot hF2),
     fun req => key (parseTarget_tot req), key parseSources_tot, key parseTagKeyExpr_tot⟩
 
+/-- **C04 (the rewind of CREATE CONTINUOUS QUERY stays within the ring).** The one place of the
+statement parser where the push-back count exceeds two: after `parseSelectStatement` has returned
+(with at most one token pushed back) the error path un-scans twice and scans again. The count is
+then at most 3 — the number of slots of the ring (`curr()` indexes `(i - n + 3) % 3` after the
+decrement, `n ≤ 2`: in range) — and that scan returns in any case (`ScanIgnoreWhitespace` needs no
+invariant to terminate), after which the function returns an ordinary parse error. -/
+theorem cq_rewind_within_ring (F : Nat) (s s' : PState) (r : SelectStmt) (hg : Good s) (hn : s.n ≤ 1)
+    (hf : FuelOK F s) (hr : (parseSelect F true).run s = .ok (r, s')) :
+    (unsc (unsc s')).n ≤ 3 ∧ (unsc (unsc s')).buf.length ≤ 3 ∧
+    (∃ lx s'', scanIW.run (unsc (unsc s')) = .ok (lx, s'')) := by
+  have h := ((stmt_tokbuf_depth F s s' hg hn hf).2.2.2.1 true r hr)
+  refine ⟨by show s'.n + 1 + 1 ≤ 3; have := h.2; omega, h.1.hb, ?_⟩
+  have ha := scanIW_any (unsc (unsc s'))
+  cases hrun : scanIW.run (unsc (unsc s')) with
+  | error e => exact (wp_run_error ha hrun).elim
+  | ok p => exact ⟨p.1, p.2, rfl⟩
+
 /-! ## Inventory of panic sites (regenerated from parser.go and scanner.go) -/
 
 /-- **C04 (panic-site inventory).** The places where the Go runtime could panic in parser.go and
